@@ -28,6 +28,19 @@ pub(crate) mod proofs {
     /// `_mm_pause` is not modelled by Kani; a spin hint has no effect on program state
     pub(crate) fn noop() {}
 
+    // adversarial environment (A-model inside Kani): right after THIS thread's decrement of the watched counter, another thread may drop its own
+    // handle too (its decrement returning 1 makes IT the last owner, responsible for the release -- which is not executed here)
+    pub(crate) static mut WATCHED_COUNTER: usize = 0;
+    pub(crate) fn racing_fetch_sub(a: &AtomicU32, d: u32, _o: std::sync::atomic::Ordering) -> u32 {
+        let cell = a as *const AtomicU32 as *mut u32;
+        unsafe {
+            let prev = *cell;
+            *cell = prev.wrapping_sub(d);
+            if cell as usize == WATCHED_COUNTER && *cell >= 1 && kani::any() { *cell -= 1; }
+            prev
+        }
+    }
+
     // @group arc_proofs
     macro_rules! arc_proofs { ($($modname:ident: $fl:ident, $p:expr, $unw:expr;)*) => { $( mod $modname {
         use super::*;
@@ -88,6 +101,25 @@ pub(crate) mod proofs {
                 expected[(s.free - 1) as usize] = s.perm[0];
                 assert!(pa::free_list_is(&pool, s.origin.wrapping_add(1), &expected, s.free), "drop (last): slot returned to the pool exactly once (free' = free.push(id))");
             }
+            kani::cover!(true, "end of harness reachable (vacuity guard)");
+        }
+
+        // @props C14 C05
+        #[kani::proof] #[kani::unwind($unw)] #[kani::stub(std::hint::spin_loop, noop)]
+        #[kani::stub(std::sync::atomic::Atomic::<u32>::fetch_sub, racing_fetch_sub)]
+        fn drop_decides_from_its_own_decrement() {
+            // 'destroyed exactly when the last handle is dropped -- whichever thread drops it': with k >= 2 handles, THIS drop is not the
+            // last one (its decrement returns k >= 2), so it must not release anything, even if another thread's drop brings the counter to
+            // zero right after our decrement (that thread is the last owner and releases). Deciding from a re-read of the counter fails here
+            let pool = Pool::new();
+            let (a, s, k, _v) = any_shared(&pool);
+            kani::assume(k >= 2);
+            let d0 = DROPS.load(SeqCst);
+            unsafe { WATCHED_COUNTER = &a.inner.as_ref().references_count as *const AtomicU32 as usize; }
+            drop(std::mem::ManuallyDrop::into_inner(a));
+            assert!(DROPS.load(SeqCst) == d0,                                "drop (own decrement returned >= 2): payload NOT destroyed by this thread, whatever other threads do meanwhile");
+            assert!(pa::free_count(&pool) == s.free - 1,                     "drop (own decrement returned >= 2): slot NOT returned by this thread");
+            kani::cover!(k == 2, "another thread may bring the counter to 0 right after us");
             kani::cover!(true, "end of harness reachable (vacuity guard)");
         }
 
